@@ -256,13 +256,16 @@ def _distribute(g: MG, draw, prog):
     n = len(macros)
     cg = call_graph(macros)
     idx = {m["name"]: i for i, m in enumerate(macros)}
-    nfiles = g.i(0, 3)  # imported files besides main
+    nfiles = g.i(0, 3) if g.b(1, 6) else g.i(1, 3)  # imported files besides main (none at all: rarely)
     file_of = [0] * n
     # callers have higher index than callees; walk from the top so that file(callee) >= file(caller)
     for i in range(n - 1, -1, -1):
         callers = [j for j in range(n) if macros[i]["name"] in cg[macros[j]["name"]]]
         lo = max([file_of[j] for j in callers], default=0)
         file_of[i] = min(nfiles, lo + g.i(0, 2)) if nfiles else 0
+    if nfiles and n and all(f == 0 for f in file_of):
+        # at least one macro lives in an imported file: the one nothing else calls into from below (index 0 is a leaf callee)
+        file_of[0] = g.i(1, nfiles)
     kinds = ["same", "sub", "parent", "abs", "lookup"]
     files = []
     for f in range(1, nfiles + 1):
